@@ -228,6 +228,20 @@ def _select_render_values(
     return values
 
 
+def _join_rendered_bindings(rendered: list[str]) -> str:
+    """Join rendered items with line breaks.
+
+    A blank line recorded behind an item (it was the last one when the source
+    was parsed) already ends that item's text: when another item follows, the
+    blank line separates the two instead of being doubled by the join.
+    """
+    parts = [
+        item[:-1] if index < len(rendered) - 1 and item.endswith("\n\n") else item
+        for index, item in enumerate(rendered)
+    ]
+    return "\n".join(parts)
+
+
 def _render_bindings(
     values: Sequence[Binding | Inherit | _AttrpathEntry], *, indent: int, inline: bool
 ) -> list[str]:
@@ -431,7 +445,7 @@ class AttributeSet(TypedExpression):
         if multiline:
             before_str = format_trivia(self.before, indent=indent)
             render_values = _select_render_values(self.values, self.attrpath_order)
-            bindings_str = "\n".join(
+            bindings_str = _join_rendered_bindings(
                 _render_bindings(render_values, indent=indented, inline=False)
             )
             if bindings_str.endswith("\n"):
